@@ -6,6 +6,7 @@ import GqlProofs.Format.BlockLex
 import GqlProofs.Format.FmtSchemaTokens
 import GqlProofs.Format.NormPreserveSchema
 import GqlProofs.Format.SchemaDocOf
+import GqlProofs.Format.ReloadExamples
 import GqlProofs.Props.C06
 /-
   Property C13 — format ∘ load round trip for schemas.
@@ -333,3 +334,105 @@ theorem C13_schema_format_parses {cfg : Cfg} (hind : AllBlank cfg.indent) (s : S
       d'.erasePos = (setBuiltIn b (normSchemaDoc cfg (docOfSchema cfg s))).erasePos := by
   rw [C13_schema_text_is_document_text cfg s h]
   exact C13_format_roundtrip hind _ hd hok src b
+
+/-! ### loaded schemas: format, load again -/
+
+open Gql.Load in
+/-- (3) **FORMAT ∘ LOAD ROUND TRIP FOR LOADED SCHEMAS.**  Let `s` be the schema the loader returns for
+    `prelude ⊕ u` (`PreludeShape`, `UserShape`: what `ParseSchemas` gives for the built-in source and for
+    user sources that do not extend a prelude type).  For every configuration without `WithBuiltin` whose
+    indentation consists of spaces and tabs: the text `FormatSchema` writes parses (as a user source `src`),
+    the loader accepts `prelude ⊕` the parsed document, and the schema it returns is `ReloadEquiv` to `s`:
+    the same root operation types, name by name the same types, fields, arguments, default values,
+    directives and descriptions (up to positions; a block-string VALUE comes back as a string value; with
+    `WithoutDescription` the descriptions are dropped — `normDef cfg`), the same directive definitions, the
+    same schema directives, the same possible types and implementers up to order.
+    `Schema.Description` is not kept (`ReloadEquiv.description`, recorded finding).
+    Hypotheses on `s` (each decidable, each shown necessary below or guaranteed for parsed sources):
+    `NoAllHidden` — no printed definition has only hidden fields (fails exactly for a scalar / enum / union
+    query root: FINDING, `C13_schema_hidden_fields_counterexample`); `FormattableSchema`, `ItemOK` of the
+    printed document — names are names, … (what the lexer and parser guarantee); `RootsPrintable` — when no
+    schema definition is printed the roots are the default-named types (always true when the schema
+    definitions of the sources list an operation type, as the parser requires). -/
+theorem C13_schema_reload {cfg : Cfg} (hind : AllBlank cfg.indent) (hb : cfg.emitBuiltin = false)
+    (pre u : SchemaDoc) (s : Schema) (hpre : PreludeShape pre) (hu : UserShape pre u)
+    (hload : load (pre.merge u) = .ok s) (hh : NoAllHidden cfg s) (hd : FormattableSchema (docOfSchema cfg s))
+    (hok : DocAll ItemOK (docOfSchema cfg s)) (hrp : RootsPrintable s) (src : Nat) :
+    ∃ P s', parseSchemaSrc 0 src false (fmtSchema cfg s) = .ok P ∧ load (pre.merge P) = .ok s' ∧ ReloadEquiv cfg s s' := by
+  obtain ⟨P, hP1, hP2⟩ := C13_schema_format_parses hind s hh hd hok src false
+  obtain ⟨s', h1, h2⟩ := reload_main hb hpre hu hload (P := P) hP2 hrp
+  exact ⟨P, s', hP1, h1, h2⟩
+
+open Gql.Load in
+/-- the model-level core of (3), without the parser: any document that is, up to positions, the printed
+    one is accepted on top of the prelude and gives an equivalent schema -/
+theorem C13_schema_reload_document {cfg : Cfg} (hb : cfg.emitBuiltin = false) (pre u P : SchemaDoc) (s : Schema)
+    (hpre : PreludeShape pre) (hu : UserShape pre u) (hload : load (pre.merge u) = .ok s)
+    (hP : P.erasePos = (setBuiltIn false (normSchemaDoc cfg (docOfSchema cfg s))).erasePos) (hrp : RootsPrintable s) :
+    ∃ s', load (pre.merge P) = .ok s' ∧ ReloadEquiv cfg s s' :=
+  reload_main hb hpre hu hload hP hrp
+
+/-! ### the recorded exceptions, kernel-checked -/
+
+/-- R13e (KNOWN FINDING `s:roundtrip-tree-differs/SCHEMA.description`): `FormatSchema` does not look at
+    `Schema.Description` at all … -/
+theorem C13_schema_description_not_printed (cfg : Cfg) (s : Schema) (d : Bytes) :
+    fmtSchema cfg { s with description := d } = fmtSchema cfg s := rfl
+
+open Gql.Load Gql.Format.Examples in
+/-- … so `"d" schema { query: Q } type Q { f: Q }` loads with the description `d` and no schema loaded
+    from its formatted text has it: `ReloadEquiv.description` cannot be `s'.description = s.description` -/
+theorem C13_schema_description_counterexample :
+    ∃ s, load (SchemaDoc.empty.merge describedSchemaDoc) = .ok s ∧ s.description = str "d" ∧
+      ∀ cfg s', ReloadEquiv cfg s s' → s'.description ≠ s.description := by
+  refine ⟨_, loadD_ok (by decide), by decide, ?_⟩
+  intro cfg s' h
+  rw [h.description]
+  decide
+
+open Gql.Load in
+/-- a user definition (not flagged built in) whose name starts with `__` is never accepted -/
+theorem load_rejects_user_dunder {sd : SchemaDoc} {d : Definition} (hd : d ∈ sd.definitions)
+    (hbi : d.builtIn = false) (hname : hasDunder d.name = true) : ∀ s, load sd ≠ .ok s := by
+  intro s h
+  obtain ⟨st, r1, d1, F⟩ := loaded_facts h
+  have hn := buildState_defs_nodup F.built
+  have hfind := find?_key_of_mem Definition.name hn hd
+  have hl := state_lookup F.built d.name
+  rw [hfind] at hl
+  simp only [mergedFrom] at hl
+  have hD := F.defOK _ (mem_of_lookup hl)
+  have hb2 : (List.foldl (fun d e => applyExt e d) d
+      (List.filter (fun x => x.name == d.name) sd.extensions)).builtIn = false := by
+    rw [foldl_applyExt_builtIn]; exact hbi
+  have hk := F.typesInv.2 _ (mem_of_lookup hl)
+  simp only at hk
+  have := hD.defName hb2
+  rw [hk, hname] at this
+  cases this
+
+open Gql.Load in
+/-- KNOWN FINDING `s:builtin-output-not-reloadable/Name`: with `WithBuiltin` the printed document contains
+    the types whose names start with `__` (every schema loaded with the real prelude has `__Schema`, …);
+    read as a user source — alone or merged after any other document — it is rejected.  So the
+    hypothesis `cfg.emitBuiltin = false` of `C13_schema_reload` cannot be dropped. -/
+theorem C13_builtin_output_not_reloadable {cfg : Cfg} (hb : cfg.emitBuiltin = true) (s : Schema)
+    (hs : ∃ p ∈ s.types, hasDunder p.2.name = true) (P : SchemaDoc)
+    (hP : P.erasePos = (setBuiltIn false (normSchemaDoc cfg (docOfSchema cfg s))).erasePos) (other : SchemaDoc) :
+    ∀ s', load (other.merge P) ≠ .ok s' := by
+  obtain ⟨p, hp, hdun⟩ := hs
+  have hmem : dropHidden cfg p.2 ∈ (sortedByKey s.types).map (dropHidden cfg) :=
+    List.mem_map.mpr ⟨p.2, (mem_sortedByKey _ _).mpr ⟨p, hp, rfl⟩, rfl⟩
+  have hdefs := congrArg SchemaDoc.definitions hP
+  simp only [SchemaDoc.erasePos, setBuiltIn, normSchemaDoc, docOfSchema, List.map_map] at hdefs
+  have hkeep : ((sortedByKey s.types).map (dropHidden cfg)).filter (keepDef cfg) = (sortedByKey s.types).map (dropHidden cfg) := by
+    rw [List.filter_eq_self]; intro d _; simp [keepDef, hb]
+  rw [hkeep] at hdefs
+  obtain ⟨d', hd', e⟩ := exists_of_map_eq_right hdefs hmem
+  have hn : d'.name = p.2.name := by
+    have := congrArg Definition.name e
+    simpa [Definition.erasePos, normDef, dropHidden] using this
+  have hbi : d'.builtIn = false := by
+    have := congrArg Definition.builtIn e
+    simpa [Definition.erasePos, normDef, dropHidden] using this
+  exact load_rejects_user_dunder (d := d') (by simp [SchemaDoc.merge, hd']) hbi (by rw [hn]; exact hdun)
